@@ -6,6 +6,7 @@
   the function in the order of calls that consume nothing first).
 -/
 import RotoV.Lemmas.ParseBase
+import RotoV.Lemmas.ParseSub
 
 namespace RotoV.Parse
 open RotoV RotoV.Lex
@@ -13,8 +14,16 @@ open RotoV RotoV.Lex
 /-- "the fuel `n` was below the bound": `n < 32 · μ s0 + r` -/
 def FB (n r : Nat) (s0 : PState) : Prop := n < 32 * μ s0 + r
 
-/-- the literal oracle only reports spans of the source -/
-def LitOk (c : Ctx) : Prop := ∀ f a b k sp, c.lit f a b = some (k, sp) → SpanOk c.src sp
+/-- what the theorems assume about the literal-decoder oracle: the byte range of
+an escape error lies inside the text the escaper was given, on character
+boundaries — the content `&s[1..s.len() - 1]` of a string literal (a token
+whose text starts with `"`), piece `j` of an f-string text. Nothing is assumed
+about any other literal. -/
+def LitOk (c : Ctx) : Prop :=
+  ∀ f s e k j a b, c.lit f s e = some (k, j, a, b) →
+    (f = true → SpanOk (textOf (textOf c.src (s, e)) (pieceOf (textOf c.src (s, e)) j)) (a, b)) ∧
+    (f = false → (textOf c.src (s, e)).head? = some '"' →
+      SpanOk (textOf (textOf c.src (s, e)) (1, blen (textOf c.src (s, e)) - 1)) (a, b))
 
 /-- one `bind` step: `pb spec` -/
 macro "pb " t:term : tactic =>
@@ -187,23 +196,41 @@ include hl
 
 omit T in
 theorem decodeLit_spec {s0 s : PState} {δ : Nat} {F : Prop} (k : TokKind) (sp : Span) (hi : InvB 2 c s)
-    (hsp : SpanOk c.src sp) (hm : μ s + δ ≤ μ s0) (hn : nsz s0 ≤ nsz s) :
+    (hsp : SpanOk c.src sp) (htext : TextOk k (textOf c.src sp)) (hm : μ s + δ ≤ μ s0) (hn : nsz s0 ≤ nsz s) :
     SpecR c F (Post c s0 δ Vid) (decodeLit c k sp s) := by
   unfold decodeLit
   split
-  · rename_i ek esp he
-    split
-    · pfail hi, (hl _ _ _ _ _ he)
-    · pfail hi, hsp
+  · rename_i ek j a b he
+    obtain ⟨_, hstr⟩ := hl _ _ _ _ _ _ _ he
+    obtain ⟨pre, post, _, _, hlen⟩ := textOf_of_spanOk hsp
+    refine fail_ok _ hi ?_
+    cases k with
+    | string =>
+      obtain ⟨m, hm'⟩ := htext
+      have h2 : SpanOk (textOf c.src sp) (1, blen (textOf c.src sp) - 1) := by
+        rw [hm']; exact content_spanOk (by decide) m
+      have h3 := hstr rfl (by rw [hm']; rfl)
+      have := spanOk_in2 hsp h2 h3
+      exact this
+    | char =>
+      obtain ⟨m, hm'⟩ := htext
+      have h2 : SpanOk (textOf c.src sp) (1, blen (textOf c.src sp)) := by
+        rw [hm']; exact afterQuote_spanOk (by decide) m
+      have := spanOk_in hsp h2
+      have e : sp.1 + blen (textOf c.src sp) = sp.2 := hlen
+      simp only at this
+      rw [e] at this
+      exact this
+    | _ => exact hsp
   · exact addNode_ok _ _ hi hsp hm hn
 
 theorem ipAddress_spec {s0 : PState} (h : InvB 2 c s0) :
     SpecR c False (Post c s0 1 Vid) (ipAddress c s0) := by
   unfold ipAddress
   pb pnext_spec T h (by omega)
-  intro r s ⟨hi, hm, hn, hsp, _⟩
+  intro r s ⟨hi, hm, hn, hsp, _, htext⟩
   split
-  · exact decodeLit_spec hl _ _ hi hsp hm hn
+  · exact decodeLit_spec hl _ _ hi hsp htext hm hn
   · pfail hi, hsp
 
 omit T hl in
@@ -250,7 +277,7 @@ theorem simpleLiteral_spec {s0 : PState} (h : InvB 2 c s0) :
     dsimp only
     split
     · exact addNode_ok _ _ hi hsp hm hn
-    · exact decodeLit_spec hl _ _ hi hsp hm hn
+    · exact decodeLit_spec hl _ _ hi hsp htext hm hn
   · pfail hi, hsp
 
 theorem literal_spec {s0 : PState} (h : InvB 2 c s0) :
